@@ -8,6 +8,9 @@ R2 release completeness, path-wise: at every free() of a pointer to a record wit
    each owning field has been released or transferred earlier on that path, or was never
    assigned on it (fresh object).
 R4 reader: munmap with the mapped length.
+R5 a parameter that a function takes over (stores into an object, releases or hands to another
+   taking parameter) is taken over on every normal path, unless the path established it is NULL:
+   callers treat the hand-over as unconditional.
 (R3 teardown order is decided with C13.R3.)
 """
 import re
@@ -145,6 +148,65 @@ def run(ctx, res):
             res.bad("C18.R2", site(f, key), what, f.loc(node), p.describe(f))
     res.tables["functions_with_acquires"] = nfun
 
+    # ---- R5 a parameter that is taken over is taken over on every path ------------------
+    res.floor("C18.R5", 3)
+    byname = {}
+    for g in prog.lib_funcs():
+        byname.setdefault(g.name, g)
+    for fn in sorted(inferred):
+        g = byname.get(fn)
+        if g is None:
+            continue
+        for idx in sorted(inferred[fn]):
+            if idx >= len(g.params) or (fn, idx) not in HANDOVERS:
+                continue   # only parameters through which some caller demonstrably hands over an acquired object
+            prm = g.params[idx]
+            if not (prm.get("ct") or prm["t"]).rstrip().endswith("*"):
+                continue
+            pname = prm["name"]
+            try:
+                evg = APE.run(prog, cg, g, bound=1, max_paths=20000)
+            except BrokenAnalysis:
+                continue
+            dropped = None
+            took = 0
+            for p in evg.paths:
+                if p.end != "exit":
+                    continue
+                consumed = False
+                locs = {}
+                holders = []      # values of the objects the parameter was stored into
+                for e in p.events:
+                    if e.kind == "store" and e.a.isidentifier():
+                        locs[e.a] = APE.vstr(e.b) if e.b is not None else None
+                    if e.kind == "store" and not e.a.isidentifier() and e.b is not None and \
+                            (APE.vstr(e.b) == pname or (e.b[0] == "s" and APE.split_off(e.b)[0] == pname)):
+                        m = re.match(r"^\(?\*?([A-Za-z_]\w*)", e.a)
+                        base = m.group(1) if m else None
+                        holders.append(locs.get(base, base))
+                    elif e.kind == "call":
+                        for i, v in enumerate(e.b):
+                            if APE.vstr(v) == pname and (e.a in release or i in consume.get(e.a, ()) or e.a.startswith("(*")):
+                                consumed = True
+                            # the object that held the parameter is itself thrown away: that was no hand-over
+                            if e.a in ("free",) and APE.vstr(v) in holders:
+                                holders = [h for h in holders if h != APE.vstr(v)]
+                    elif e.kind == "ret" and e.a is not None and APE.vstr(e.a) == pname:
+                        consumed = True
+                if holders:
+                    consumed = True
+                isnull = any(a == pname and b == "#0" and v <= frozenset((EQ,)) for (a, b), v in p.cons.items())
+                if consumed:
+                    took += 1
+                elif not isnull and dropped is None:
+                    dropped = p
+            if took == 0:
+                continue
+            res.check(dropped is None, "C18.R5", site(g, "takes:%s" % pname),
+                      "parameter %s is stored, released or handed on on every normal path (%d)" % (pname, took),
+                      "%s takes over %s on some paths but drops it on another: callers hand it over for good, so the object leaks there" % (fn, pname),
+                      g.loc(g.body), dropped.describe(g) if dropped is not None else None)
+
     # ---- verified exceptions -----------------------------------------------------
     rw = prog.need("result_worker", "mtbl/threadpool.c")
     okx = any(canon(call_args(c)[0]) == "&rh->rq" for c in rw.calls("resultq_destroy"))
@@ -193,6 +255,9 @@ def run(ctx, res):
               "munmap is not called with the mapped pointer and length", rd.loc(mu[0]) if mu else rd.loc(rd.body))
 
 
+HANDOVERS = set()   # (callee, parameter index) through which an acquired object was handed over on some analysed path
+
+
 def _own_path(f, p, acquire, release, by_addr, consume, via_addr, leaks, oks):
     evs = [e for e in p.events if e.kind != "branch"]
     owned = {}     # symbol -> (kind, acquire event)
@@ -224,6 +289,7 @@ def _own_path(f, p, acquire, release, by_addr, consume, via_addr, leaks, oks):
                     owned.pop(tgt, None)
                 elif i in consume.get(e.a, ()):
                     owned.pop(tgt, None)
+                    HANDOVERS.add((e.a, i))
                 elif e.a.startswith("(*"):
                     # indirect call (registered free function / user callback): ownership passes
                     owned.pop(tgt, None)
